@@ -40,10 +40,10 @@ fn small_ops(g: &mut Gen, n: usize) -> Vec<Op> {
     ops
 }
 
-fn link_plan(prop: &str, scenario: &str, seed: u64, cells: &[(Proto, &'static str, usize)]) -> (Plan, Gen) {
+fn link_plan(prop: &str, scenario: &str, seed: u64, cells: &[(Proto, &'static str, usize)], transport: Transport) -> (Plan, Gen) {
     let mut g = Gen::new(seed, 4);
     let (proto, cipher, n_users) = cells[(seed as usize / 2) % cells.len()];
-    let config = gen_config(&mut g, proto, cipher, Transport::Tcp, n_users);
+    let config = gen_config(&mut g, proto, cipher, transport, n_users);
     let hs = *g.pick(&[LocalHs::Socks5V4, LocalHs::Socks5Domain]);
     let mut f = gen_flow(&mut g, 0, hs, Ending::None, 1000);
     f.up = small_ops(&mut g, 3);
@@ -91,6 +91,10 @@ struct LinkRun {
     s2c: Vec<u8>,
     fwd_log: Vec<(u64, u64)>,
     connects_to_targets: usize,
+    /// WebSocket-aware runs: length of the payload stream of the data messages in the scripted direction
+    ws_payload_len: u64,
+    ws_bounds: Vec<u64>,
+    ws_messages_out: u64,
 }
 
 fn run_link(plan: &Plan, dir: &str, script: DirScript) -> LinkRun {
@@ -115,6 +119,9 @@ fn run_link(plan: &Plan, dir: &str, script: DirScript) -> LinkRun {
         s2c: s_s2c,
         fwd_log: if dir == "c2s" { pobs.fwd_log_c2s } else { pobs.fwd_log_s2c },
         connects_to_targets,
+        ws_payload_len: if dir == "c2s" { pobs.ws_payload_c2s.len() } else { pobs.ws_payload_s2c.len() } as u64,
+        ws_bounds: if dir == "c2s" { pobs.ws_bounds_c2s } else { pobs.ws_bounds_s2c },
+        ws_messages_out: pobs.ws_messages_out,
     }
 }
 
@@ -124,18 +131,24 @@ fn add_stats(into: &mut BTreeMap<String, u64>, from: &BTreeMap<String, u64>) {
     }
 }
 
+fn script_is_merge(cuts: &[u64], out: u64, inp: u64) -> bool {
+    cuts.is_empty() && out < inp
+}
+
 // ---------------------------------------------------------------- C04
+
+/// segmentation families of C04: on the plain tcp carrier (byte stream cut into TCP segments), on the WebSocket
+/// carrier with the payload stream re-cut into WebSocket *messages* by the WebSocket-aware link node (ws-*), and on the
+/// WebSocket carrier with the framed byte stream cut into TCP segments underneath the WebSocket layer (wstcp-*)
+pub const C04_MODES: [&str; 8] = ["single", "bytewise", "multi", "ws-single", "ws-bytewise", "ws-merge", "wstcp-single", "wstcp-multi"];
 
 pub fn gen_c04(seed: u64, thorough: bool) -> Plan {
     let cells = link_cells();
-    let (mut plan, mut g) = link_plan("C04", "link-seg", seed, &cells);
     // which segmentations this plan enumerates
     let round = seed as usize / (2 * cells.len());
-    let mode = match round % 3 {
-        0 => "single",
-        1 => "bytewise",
-        _ => "multi",
-    };
+    let mode = C04_MODES[round % C04_MODES.len()];
+    let transport = if mode.starts_with("ws") { Transport::Ws } else { Transport::Tcp };
+    let (mut plan, mut g) = link_plan("C04", "link-seg", seed, &cells, transport);
     plan.extra["mode"] = mode.into();
     plan.extra["multi_samples"] = (if thorough { 400 } else { 40 }).into();
     plan.extra["pair_samples"] = (if thorough { 1500 } else { 0 }).into();
@@ -206,8 +219,10 @@ pub fn execute_c04(plan: &Plan) -> Outcome {
         }
     };
     // baseline: unsegmented, must be clean (otherwise it is a C01 matter, reported here once)
-    let base = run_link(plan, &dir, DirScript::default());
-    let n = base.stream_len;
+    let ws_level = matches!(mode.as_str(), "ws-single" | "ws-bytewise" | "ws-merge");
+    let base = run_link(plan, &dir, if ws_level { DirScript { ws_mode: 1, ..Default::default() } } else { DirScript::default() });
+    // message-level runs count offsets in the payload stream of the WebSocket data messages, the others in the byte stream
+    let n = if ws_level { base.ws_payload_len } else { base.stream_len };
     sim_ns += base.sim_ns;
     polls += base.polls;
     ev_count += base.ev_count;
@@ -218,13 +233,17 @@ pub fn execute_c04(plan: &Plan) -> Outcome {
         let vs = base_v.into_iter().map(|mut v| { v.signature = v.signature.replacen("C04/", "C04/baseline-", 1); v }).collect();
         push(vs, &mut violations);
     }
-    let exempt = exempt_prefix(&plan.config, &dir);
+    // under the WebSocket layer the first message is reassembled whatever the TCP segmentation is: nothing is exempt there
+    let exempt = if mode.starts_with("wstcp") { 0 } else { exempt_prefix(&plan.config, &dir) };
     let only: Option<Vec<Vec<u64>>> = plan.extra.get("only_cuts").and_then(|v| serde_json::from_value(v.clone()).ok());
     let mut cases: Vec<(DirScript, String, bool)> = Vec::new();
     if let Some(list) = only {
         for cuts in list {
             let ex = cuts.iter().any(|c| *c < exempt);
-            if cuts.is_empty() {
+            if ws_level {
+                let ws_mode = if mode == "ws-merge" { 3 } else if cuts.is_empty() { 2 } else { 1 };
+                cases.push((DirScript { cuts: cuts.clone(), gap_ms: if ws_mode == 3 { 60 } else { 200 }, ws_mode, ..Default::default() }, format!("websocket messages: mode {ws_mode}, cuts {cuts:?} of {n}"), ex || (ws_mode == 2 && exempt > 0)));
+            } else if cuts.is_empty() {
                 cases.push((DirScript { bytewise: true, gap_ms: 2, ..Default::default() }, "byte at a time".into(), false));
             } else {
                 cases.push((DirScript { cuts: cuts.clone(), gap_ms: 200, ..Default::default() }, format!("cuts {cuts:?} of {n}"), ex));
@@ -232,7 +251,32 @@ pub fn execute_c04(plan: &Plan) -> Outcome {
         }
     } else if baseline_ok && n > 1 {
         match mode.as_str() {
-            "single" => {
+            "ws-single" => {
+                for k in 1..n {
+                    cases.push((DirScript { cuts: vec![k], gap_ms: 200, ws_mode: 1, ..Default::default() }, format!("websocket message cut at payload offset {k} of {n}"), k < exempt));
+                }
+                let mut g = Gen::new(plan.extra["sub_seed"].as_u64().unwrap_or(1), 19);
+                for _ in 0..plan.extra["multi_samples"].as_u64().unwrap_or(20) {
+                    let k = g.range(2, 10.min(n - 1));
+                    let mut cuts: Vec<u64> = (0..k).map(|_| g.range(exempt.max(1), n - 1)).collect();
+                    cuts.sort();
+                    cuts.dedup();
+                    cases.push((DirScript { cuts: cuts.clone(), gap_ms: 200, ws_mode: 1, ..Default::default() }, format!("websocket messages cut at payload offsets {cuts:?} of {n}"), false));
+                }
+            }
+            "ws-bytewise" => {
+                if exempt == 0 {
+                    cases.push((DirScript { gap_ms: 2, ws_mode: 2, ..Default::default() }, "one websocket message per payload byte".into(), false));
+                } else {
+                    let cuts: Vec<u64> = (exempt..n).collect();
+                    cases.push((DirScript { cuts, gap_ms: 2, ws_mode: 1, ..Default::default() }, format!("one websocket message per payload byte after offset {exempt}"), false));
+                }
+            }
+            "ws-merge" => {
+                cases.push((DirScript { gap_ms: 60, ws_mode: 3, ..Default::default() }, "consecutive websocket messages merged into one".into(), false));
+                cases.push((DirScript { gap_ms: 5, ws_mode: 3, ..Default::default() }, "websocket messages merged while they follow within 5 ms".into(), false));
+            }
+            "single" | "wstcp-single" => {
                 for k in 1..n {
                     cases.push((DirScript { cuts: vec![k], gap_ms: 200, ..Default::default() }, format!("cut {k} of {n}"), k < exempt));
                 }
@@ -277,7 +321,13 @@ pub fn execute_c04(plan: &Plan) -> Outcome {
         polls += lr.polls;
         ev_count += lr.ev_count;
         add_stats(&mut stats, &lr.stats);
-        if lr.stream_len == n {
+        if ws_level {
+            *probes.entry("websocket_messages_forwarded".to_owned()).or_insert(0) += lr.ws_messages_out;
+            if script_is_merge(&cuts, lr.ws_messages_out, lr.ws_bounds.len() as u64) {
+                *probes.entry("websocket_merges".to_owned()).or_insert(0) += 1;
+            }
+        }
+        if (if ws_level { lr.ws_payload_len } else { lr.stream_len }) == n {
             extra_cases.push(lr.poll_hash ^ plan_shape_hash(plan) ^ cuts.iter().fold(0u64, |a, c| a.wrapping_mul(1099511628211) ^ c));
         } else {
             *probes.entry("stream_length_changed".to_owned()).or_insert(0) += 1;
@@ -326,7 +376,10 @@ fn c05_cells() -> Vec<(Proto, &'static str, usize)> {
 
 pub fn gen_c05(seed: u64, thorough: bool) -> Plan {
     let cells = c05_cells();
-    let (mut plan, mut g) = link_plan("C05", "link-tamper", seed, &cells);
+    // odd rounds run over the WebSocket carrier: the mutation hits the framed byte stream, and the server-side adapter
+    // there keeps polling its decoder after an error (which a plain `Framed` does not)
+    let transport = if (seed as usize / (2 * cells.len())) % 2 == 1 { Transport::Ws } else { Transport::Tcp };
+    let (mut plan, mut g) = link_plan("C05", "link-tamper", seed, &cells, transport);
     plan.extra["flip_stride"] = (if thorough { 1 } else { 1 }).into();
     plan.extra["random_edits"] = (if thorough { 400 } else { 60 }).into();
     plan.extra["sub_seed"] = g.next().into();
@@ -368,8 +421,18 @@ pub fn execute_c05(plan: &Plan) -> Outcome {
     let (mut sim_ns, mut polls, mut ev_count) = (0, 0, 0);
     let mut panics = Vec::new();
     // reference: byte-at-a-time delivery of the untampered stream gives the release curve
-    let exempt = exempt_prefix(&plan.config, &dir);
-    let base_script = if exempt == 0 {
+    let ws = plan.config.transport == Transport::Ws;
+    // WebSocket carrier: the upgrade exchange is not paced (a slow upgrade would let the application's first writes pile up
+    // and change what the client sends afterwards); an unpaced run shows where it ends and what the stream looks like
+    let pre = if ws { Some(run_link(plan, &dir, DirScript::default())) } else { None };
+    let upgrade_end = pre.as_ref().and_then(|p| {
+        let st = if dir == "c2s" { &p.c2s } else { &p.s2c };
+        st.windows(4).position(|w| w == b"\r\n\r\n").map(|i| i as u64 + 4)
+    });
+    let exempt = if ws { 0 } else { exempt_prefix(&plan.config, &dir) };
+    let base_script = if let Some(u) = upgrade_end {
+        DirScript { cuts: (u..u + 100_000).collect(), gap_ms: 2, ..Default::default() }
+    } else if exempt == 0 {
         DirScript { bytewise: true, gap_ms: 2, ..Default::default() }
     } else {
         // Shadowsocks 2022: the first flight up to the sealed fixed header arrives whole, the rest byte by byte
@@ -378,15 +441,28 @@ pub fn execute_c05(plan: &Plan) -> Outcome {
     let base = run_link(plan, &dir, base_script);
     let n = base.stream_len;
     let released_all = if dir == "c2s" { base.run.flows[0].target.recv.len() } else { base.run.flows[0].app.recv.len() };
-    let baseline_ok = base.run.startup_err.is_none() && base.run.flows[0].hs_err.is_none() && released_all == want.len() && base.panics.is_empty();
+    let same_stream = pre.as_ref().is_none_or(|p| p.stream_len == base.stream_len && upgrade_end.is_some());
+    let baseline_ok = base.run.startup_err.is_none() && base.run.flows[0].hs_err.is_none() && released_all == want.len() && base.panics.is_empty() && same_stream;
     sim_ns += base.sim_ns;
     polls += base.polls;
     ev_count += base.ev_count;
     add_stats(&mut stats, &base.stats);
     let curve = release_curve(&base, &dir);
+    if std::env::var_os("VERIF_DEBUG_CURVE").is_some() {
+        let o = &base.run.flows[0];
+        eprintln!("curve steps: {:?}", curve.iter().enumerate().filter(|(i, v)| *i == 0 || curve[*i - 1] != **v).collect::<Vec<_>>());
+        eprintln!("fwd_log first/last: {:?} {:?} len {}", base.fwd_log.first(), base.fwd_log.last(), base.fwd_log.len());
+        eprintln!("target recv_log: {:?}", o.target.recv_log);
+        eprintln!("payload ranges: {:?}", crate::proxy::ws_payload_ranges(if dir == "c2s" { &base.c2s } else { &base.s2c }));
+    }
     // VMess leaves its random padding unauthenticated by design, so "nothing after the tampered byte" is only
     // demanded where every byte is covered by a tag (Shadowsocks); VMess gets the prefix oracle
     let strict = plan.config.proto == Proto::Shadowsocks;
+    // on the WebSocket carrier only the payload of the data frames is ciphertext of the carried protocol: the HTTP
+    // upgrade and the frame headers are not authenticated by it (an edit there either breaks the WebSocket session or
+    // changes nothing), so the release-curve oracle applies to edits inside payload bytes, the prefix oracle everywhere
+    let payload_ranges = if plan.config.transport == Transport::Ws { Some(crate::proxy::ws_payload_ranges(if dir == "c2s" { &base.c2s } else { &base.s2c })) } else { None };
+    let in_ciphertext = |at: u64| payload_ranges.as_ref().is_none_or(|r| r.iter().any(|(a, b)| at >= *a && at < *b));
     let mut cases: Vec<(DirScript, String, u64)> = Vec::new();
     let only: Option<Vec<DirScript>> = plan.extra.get("only_scripts").and_then(|v| serde_json::from_value(v.clone()).ok());
     if let Some(list) = only {
@@ -466,7 +542,7 @@ pub fn execute_c05(plan: &Plan) -> Outcome {
             let got = if dir == "c2s" { &o.target.recv } else { &o.app.recv };
             if let Some(off) = first_mismatch(got, &want) {
                 vs.push(Violation::new("C05", format!("C05/not-a-prefix/{cell}/{dir}"), format!("{what}: released bytes differ from what was written at plaintext offset {off} (released {}): got {:02x?}", got.len(), &got[off..(off + 16).min(got.len())])));
-            } else if strict && (at as usize) < curve.len() && got.len() > curve[at as usize] {
+            } else if strict && in_ciphertext(at) && (at as usize) < curve.len() && got.len() > curve[at as usize] {
                 vs.push(Violation::new("C05", format!("C05/released-after-tamper/{cell}/{dir}"), format!("{what}: {} plaintext bytes released, but an untampered stream cut at that point releases only {}", got.len(), curve[at as usize])));
             }
             // the opposite direction must not leak either: whatever the other side released is still a prefix of its own stream
@@ -493,6 +569,9 @@ pub fn execute_c05(plan: &Plan) -> Outcome {
     probes.insert("mutations".to_owned(), evals);
     probes.insert("stream_bytes".to_owned(), n);
     probes.insert("strict_release_oracle".to_owned(), strict as u64);
+    if let Some(r) = &payload_ranges {
+        probes.insert("websocket_payload_bytes".to_owned(), r.iter().map(|(a, b)| b - a).sum());
+    }
     Outcome {
         violations,
         ev_hash: base.ev_hash,
